@@ -147,12 +147,17 @@ Level2(S) ==
 \* orientation sign of a stored cell, at the home coordinates
 CellOrient(S, c) == Orient(Pts(Pos(S), c.vs))
 HasPert(S, vs)   == \E i \in DOMAIN vs : vs[i] \in PertSet(S)
+\* vertices whose stored coordinates are NOT within the documented perturbation of a lattice home that the
+\* exact arithmetic here can represent (|m| >= 1e9 units is logged as 0): nothing geometric is decided about them
+UnkSet(S)        == {r.id : r \in {x \in VRecs(S) : x.pert /\ ~x.dok}}
+UnkIn(S, T)      == T \cap UnkSet(S) # {}
+HasUnk(S, vs)    == \E i \in DOMAIN vs : vs[i] \in UnkSet(S)
 
 \* Every cell non-degenerate and all cells of one geometric orientation.  A cell
 \* containing a perturbed vertex whose home determinant is zero is undecidable
 \* (inside the tolerance band) and is skipped.
 GeometricOrientationOK(S) ==
-  LET dec == {c \in CRecs(S) : ~(HasPert(S, c.vs) /\ CellOrient(S, c) = 0)}
+  LET dec == {c \in CRecs(S) : ~HasUnk(S, c.vs) /\ ~(HasPert(S, c.vs) /\ CellOrient(S, c) = 0)}
   IN  /\ \A c \in dec : CellOrient(S, c) # 0
       /\ \A c, d \in dec : CellOrient(S, c) = CellOrient(S, d)
 
@@ -201,7 +206,7 @@ EmbOpposite(S) ==
           b == CHOOSE c \in cs : c # a
           sa == EmbSide(S, f, ApexOf(a, f))
           sb == EmbSide(S, f, ApexOf(b, f))
-      IN  (sa * sb < 0) \/ (~EmbDec(S, a \cup b) /\ sa * sb = 0)
+      IN  UnkIn(S, a \cup b) \/ (sa * sb < 0) \/ (~EmbDec(S, a \cup b) /\ sa * sb = 0)
 
 \* every boundary facet lies on a supporting hyperplane of the whole vertex set
 EmbConvex(S) ==
@@ -209,7 +214,7 @@ EmbConvex(S) ==
   \A f \in Boundary(KK) :
     LET c  == CHOOSE c \in CellsWith(KK, f) : TRUE
         sa == EmbSide(S, f, ApexOf(c, f))
-    IN  \A v \in VIds(S) : EmbSide(S, f, v) * sa >= 0 \/ (~EmbDec(S, c \cup {v}) /\ sa = 0)
+    IN  \A v \in VIds(S) : UnkIn(S, c \cup {v}) \/ EmbSide(S, f, v) * sa >= 0 \/ (~EmbDec(S, c \cup {v}) /\ sa = 0)
 
 \* degree one: the centroid of every cell lies in the closed simplex of no other
 \* cell (coordinates scaled by D+1 so the centroid is integral)
@@ -236,8 +241,8 @@ Embedded(S) ==
 \* never a violation.
 StrictViolations(S) ==
   LET P == Pos(S) IN
-  UNION {{<<c.id, v>> : v \in {w \in VIds(S) \ CellSet(c) :
-                                 InSphere(Pts(P, c.vs), P[w]) > 0}} : c \in CRecs(S)}
+  UNION {{<<c.id, v>> : v \in {w \in (VIds(S) \ CellSet(c)) \ UnkSet(S) :
+                                 InSphere(Pts(P, c.vs), P[w]) > 0}} : c \in {x \in CRecs(S) : ~HasUnk(S, x.vs)}}
 NoStrictlyInside(S) == StrictViolations(S) = {}
 
 \* diagnostics printed next to a failed conjunct (used to recognise known findings)
@@ -742,7 +747,7 @@ RawRec(f, id) == f[ToString(id)]
 \* the library stores every cell positively oriented in ITS convention, sign det [coords | 1]
 \* = (-1)^D * (edge-vector determinant)  (docs/ORIENTATION_SPEC.md; calibrated by C12)
 LibSign(S, c) == CellOrient(S, c) * (IF S.D % 2 = 0 THEN 1 ELSE -1)
-PositiveOrientation(S) == \A c \in CRecs(S) : LibSign(S, c) = 1 \/ (HasPert(S, c.vs) /\ CellOrient(S, c) = 0)
+PositiveOrientation(S) == \A c \in CRecs(S) : HasUnk(S, c.vs) \/ LibSign(S, c) = 1 \/ (HasPert(S, c.vs) /\ CellOrient(S, c) = 0)
 
 Ref1(S) ==
   /\ Level1Q(S)
